@@ -127,10 +127,51 @@ reg("C20", ["c20_sx.c"],
     exhaustive={"quick": "all strings of length <= 5 over the 10-character alphabet",
                 "thorough": "all trees with <= 6 nodes/depth <= 4 over the vocabulary; all strings of length <= 7 over the 10-character alphabet"})
 
+reg("C10", ["c10_pstore.c"],
+    rule="units = data sizes {1..5,7,8,9,15,16,17,31,32,33,40} (quick) / 1..48 and selected sizes up to 130 "
+         "(thorough); per size: placements {0,1,7,4093} x checksum {default 16-bit sum, CRC-16/ARC, 32-bit rotating "
+         "sum} x auxiliary buffer {none, non-NULL size 0, sizes 1..size+1 (sub-sampled for larger sizes in quick)}; "
+         "per configuration: reset with two fill values, full store, partial stores at (offset, length) pairs (all "
+         "pairs for small sizes, boundary + seeded sample otherwise) over evolving content each followed by "
+         "validate, fetch and fetch_part, out-of-range part accesses incl. offset+length pairs that wrap size_t, and "
+         "three alterations of every octet of the region. A signature is a configuration (size, placement, "
+         "checksum, aux size); evaluations counts operations checked.",
+    assumptions=["the medium callbacks return exactly what was asked (faults are the subject of C11)",
+                 "checksum octets on the medium are native (little) endian"])
+
+reg("C11", ["c11_pcrash.c"], level="fault_enumeration",
+    rule="units = (data size, placement, checksum algorithm) from the C10 grid (sizes {1,2,3,5,8,9,16,17,33} in "
+         "quick, 22 sizes up to 130 in thorough) x auxiliary buffer {none, sizes 1,2,3,5,size,size+1 (quick) / more "
+         "(thorough)}. Crash points: for a full store, a reset and partial stores (all windows for sizes <= 6, "
+         "boundary-biased seeded sample otherwise) on a medium holding a valid image, the recorded write log is "
+         "replayed offline into every prefix and every octet-granular tear of each write, and each image is "
+         "validated (and, at whole-write granularity, fetched) on a fresh instance. Faults: every medium access k of "
+         "store, store_part, reset, validate, fetch, fetch_part fails (moves nothing) or transfers one octet short, "
+         "for every k. A signature is a (configuration, aux size) pair; evaluations counts crash images judged plus "
+         "fault positions injected.",
+    assumptions=["a torn write leaves a prefix of its octets on the medium; writes are not reordered",
+                 "zero-length medium accesses cannot fail visibly and are not counted as injected faults"])
+
 SAN_NOTE = ("Trusted: gcc 12 ASan/UBSan runtime, the harness' reference model, the fork-per-unit runner. "
             "Assumes little-endian x86-64; decides only the executions listed in the evidence file.")
 
 MANIFEST_TEXT = {
+    "C11": dict(
+        technique="runtime monitoring + fault enumeration: recorded medium write logs replayed offline into every crash prefix/tear, and single read/write failures or short transfers injected at every access position; independent checksum oracle; ASan/UBSan",
+        text="Every crash point of every explored store/reset (write-call prefixes and octet-granular tearing) is "
+             "materialised as a medium image and validated by the real code on a fresh instance: validation may "
+             "succeed only if an independent checksum of the data on the medium equals the stored one, and at "
+             "whole-write granularity a valid image must be exactly the previous or the new one. Every single "
+             "failing or short medium access in each of the six operations must surface as an I/O error.",
+        note=SAN_NOTE),
+    "C10": dict(
+        technique="runtime monitoring: configuration grid executed against a model image and independent checksum implementations; medium = exact-size poisoned block with access log; ASan/UBSan",
+        text="Every configuration of the grid is run through reset, full and partial stores, fetches and alterations; "
+             "after every step validate must agree with an independent checksum of the medium, fetch with the model "
+             "image, and every logged medium access must lie inside the instance's region (the medium block is only "
+             "that region, everything around it is poisoned). Out-of-range and size_t-wrapping part accesses must be "
+             "refused with an empty access log; a bound on medium accesses per operation decides termination.",
+        note=SAN_NOTE),
     "C20": dict(
         technique="runtime monitoring: generated trees and exhaustive short strings against a reference reader, allocation-ledger leak oracle, exact-size poisoned inputs under ASan/UBSan",
         text="Printer-inverse: generated trees are rendered with varied whitespace and hex case and the parse result "
